@@ -312,7 +312,7 @@ where
             for o in &obs {
                 match slot.model.get(&o.raw) {
                     Some(kid) => {
-                        if KD::TRACKED && *kid != o.kid {
+                        if KD::IDENT && *kid != o.kid {
                             same_ident = false;
                         }
                     }
@@ -453,7 +453,7 @@ where
                 match &r {
                     Ok(Ok(false)) => {}
                     Ok(Err(Some(rk))) => {
-                        if KD::TRACKED {
+                        if KD::IDENT {
                             cx.chk(P12, *rk == old_kid, "returned-key-identity", || format!("replace handed back object #{rk}, the stored one was #{old_kid}"));
                         }
                         slot.model.insert(k, kid);
@@ -543,7 +543,7 @@ where
             match (&r, want) {
                 (Ok(Some(g)), Some(kid)) => {
                     if opi == O_GET {
-                        if KD::TRACKED {
+                        if KD::IDENT {
                             cx.chk(P12, g.0 == kid && g.0 != probe_id, "exposed-key-identity", || format!("get exposes object #{}, stored is #{kid}", g.0));
                         }
                         cx.bump(S::addr_checks);
@@ -587,7 +587,7 @@ where
             cx.log(|| format!("{}[{w}]({k}) -> {r:?}   (model {want:?})", OP_NAMES[opi]));
             match (&r, want) {
                 (Ok(Some(g)), Some(kid)) => {
-                    if opi == O_TAKE && KD::TRACKED {
+                    if opi == O_TAKE && KD::IDENT {
                         cx.chk(P12, *g == kid, "exposed-key-identity", || format!("take returned object #{g}, stored was #{kid}"));
                     }
                     cx.bump(S::removals);
@@ -747,7 +747,7 @@ where
                 if po.panicked == Some(Pk::Injected) {
                     fault = true;
                 } else if !liar {
-                    let rest: Vec<(u8, u32)> = before.iter().filter(|(k, _)| !ys.iter().any(|y| y.0 == **k)).map(|(k, id)| (*k, if KD::TRACKED { *id } else { NOID })).collect();
+                    let rest: Vec<(u8, u32)> = before.iter().filter(|(k, _)| !ys.iter().any(|y| y.0 == **k)).map(|(k, id)| (*k, if KD::IDENT { *id } else { NOID })).collect();
                     let r = check_multiset(&po, &rest, true);
                     cx.chk(P10, r.is_ok(), "adaptor", || format!("Set::drain after {} of {n} items: {}", ys.len(), r.clone().err().unwrap_or_default()));
                 }
@@ -764,7 +764,7 @@ where
                     cx.chk(P10, !ys[..i].iter().any(|z| z.0 == y.0), "repeat", || format!("drain yielded {} twice", y.0));
                     match before.get(&y.0) {
                         Some(kid) => {
-                            if KD::TRACKED {
+                            if KD::IDENT {
                                 cx.chk(P12, *kid == y.1, "exposed-key-identity", || format!("drain yielded object #{}, stored was #{kid}", y.1));
                             }
                         }
@@ -856,7 +856,7 @@ where
                     cx.chk(P09, !ys[..i].iter().any(|z| z.raw == y.raw), "repeat", || format!("{name} yielded {} twice", y.raw));
                     match slot.model.get(&y.raw) {
                         Some(kid) => {
-                            if KD::TRACKED {
+                            if KD::IDENT {
                                 cx.chk(P12.and(Prop::C09), *kid == y.kid, "exposed-key-identity", || format!("{name} yielded object #{}, stored is #{kid}", y.kid));
                             }
                         }
@@ -939,7 +939,7 @@ where
                 if po.panicked == Some(Pk::Injected) {
                     fault = true;
                 } else if !liar {
-                    let rest: Vec<(u8, u32)> = before.iter().filter(|(k, _)| !ys.iter().any(|y| y.0 == **k)).map(|(k, id)| (*k, if KD::TRACKED { *id } else { NOID })).collect();
+                    let rest: Vec<(u8, u32)> = before.iter().filter(|(k, _)| !ys.iter().any(|y| y.0 == **k)).map(|(k, id)| (*k, if KD::IDENT { *id } else { NOID })).collect();
                     let r = check_multiset(&po, &rest, true);
                     cx.chk(P10, r.is_ok(), "adaptor", || format!("Set::into_iter after {} of {n} items: {}", ys.len(), r.clone().err().unwrap_or_default()));
                 }
@@ -956,7 +956,7 @@ where
                     cx.chk(P10, !ys[..i].iter().any(|z| z.0 == y.0), "repeat", || format!("Set::into_iter yielded {} twice", y.0));
                     match before.get(&y.0) {
                         Some(kid) => {
-                            if KD::TRACKED {
+                            if KD::IDENT {
                                 cx.chk(P12, *kid == y.1, "exposed-key-identity", || format!("Set::into_iter yielded object #{}, stored was #{kid}", y.1));
                             }
                         }
@@ -1296,7 +1296,7 @@ where
                                 let qo = KD::qo(o.raw);
                                 match tl::quiet(|| refs.get::<KD::Q>(KD::q(&qo)).map(|k| KD::kid(k))) {
                                     Ok(Some(rk)) => {
-                                        if KD::TRACKED && rids.iter().position(|x| *x == rk) != ids.iter().position(|x| *x == o.kid) {
+                                        if KD::IDENT && rids.iter().position(|x| *x == rk) != ids.iter().position(|x| *x == o.kid) {
                                             same = false;
                                         }
                                     }
@@ -1433,6 +1433,14 @@ where
                     };
                     cx.log(|| format!("fmt[{w}] form {sub}: {out:?}"));
                     cx.chk(P19, out == want, "container-format", || format!("form {sub}: rendered {out:?}, expected {want:?}"));
+                    // Debug under other formatter options: the standard builder hands them to every entry
+                    let spec = b as usize % mmv_base::fmtutil::NFLAGS;
+                    let real: Vec<KD::K> = tl::outside(|| obs.iter().map(|o| KD::key(o.raw)).collect());
+                    let want2 = mmv_base::fmtutil::ref_debug_flags(&mmv_base::fmtutil::RealSet(&real), spec);
+                    if let Ok(out2) = mmv_base::fmtutil::fmt_debug_flags::<KD>(cx, &slot.c.m, spec) {
+                        cx.chk(P19, out2 == want2, "container-format-flags", || format!("Debug with {}: rendered {out2:?}, the standard set rendering of the same entries is {want2:?}", mmv_base::fmtutil::FLAG_NAMES[spec]));
+                    }
+                    tl::outside(|| drop(real));
                 }
                 Err(p) => fault = unexpected(cx, false, P19, &p),
             }
@@ -1615,6 +1623,10 @@ impl Copy2 for mmv_base::kinds::Unit {
         s.extend(it)
     }
 }
+impl Copy2 for mmv_base::kinds::GK {
+    const IS_COPY: bool = false;
+    fn extend_by_ref<'a, const N: usize, I: Iterator<Item = &'a Self>>(_: &mut Set<Self, N>, _: I) {}
+}
 impl Copy2 for mmv_base::kinds::NK {
     const IS_COPY: bool = false;
     fn extend_by_ref<'a, const N: usize, I: Iterator<Item = &'a Self>>(_: &mut Set<Self, N>, _: I) {}
@@ -1682,13 +1694,14 @@ where
 }
 
 pub fn run_dyn(case: &Case, cx: &mut Ctx) {
-    use mmv_base::kinds::{NoDrop, Plain, Str, Tracked, ZstKey};
+    use mmv_base::kinds::{NoDrop, Plain, Str, Tagged, Tracked, ZstKey};
     // sets are instantiated for tracked / plain / string / zero-sized / no-drop-glue elements
     let kind = match case.kind % mmv_base::case::NKINDS {
         0 => 0,
         2 => 2,
         4 | 7 => 4,
         6 => 6,
+        8 => 8,
         _ => 1,
     };
     let n = mmv_base::capacity_of(&Case { kind, ..case.clone() });
@@ -1697,6 +1710,7 @@ pub fn run_dyn(case: &Case, cx: &mut Ctx) {
         1 => mmv_base::by_cap!(run, Plain, n, case, cx, [0, 1, 2, 3, 4, 6, 9, 17, 33, 70]),
         2 => mmv_base::by_cap!(run, Str, n, case, cx, [0, 1, 2, 3, 4, 6]),
         4 => mmv_base::by_cap!(run, ZstKey, n, case, cx, [0, 1]),
-        _ => mmv_base::by_cap!(run, NoDrop, n, case, cx, [0, 1, 2, 3, 4, 6]),
+        6 => mmv_base::by_cap!(run, NoDrop, n, case, cx, [0, 1, 2, 3, 4, 6]),
+        _ => mmv_base::by_cap!(run, Tagged, n, case, cx, [0, 1, 2, 3, 4, 6, 9]),
     }
 }
